@@ -15,11 +15,13 @@ IsVararg(p) == "vararg" \in DOMAIN p /\ p.vararg
 ParamSig(ps) == [j \in 1..Len(ps) |-> [n |-> ps[j].n, default |-> ps[j].d.k # "absent", star |-> IsVararg(ps[j])]]
 FunSig(f) == [kind |-> "fun", name |-> Dunder(f.n), params |-> ParamSig(f.ps)]
 MethodSig(m) == [name |-> Dunder(m.n), params |-> ParamSig(m.ps)]
+\* class arguments as constructor parameters; an explicit first argument `self: T` (the documented form of type refinement) is the receiver
+CtorArgs(c) == IF Len(c.args) > 0 /\ c.args[1].n = "self" THEN Tail(c.args) ELSE c.args
 HasInit(c) == \E j \in 1..Len(c.methods) : c.methods[j].n \in {"__init__", "init"}
 \* the methods the class must expose (as a set, the order of members is not part of the property)
 Methods(c) == {MethodSig(c.methods[j]) : j \in 1..Len(c.methods)}
-              \cup (IF ~HasInit(c) /\ Len(c.args) > 0 THEN {[name |-> "__init__", params |-> ParamSig(c.args)]} ELSE {})
-OptionalInit(c) == ~HasInit(c) /\ Len(c.args) = 0
+              \cup (IF ~HasInit(c) /\ Len(CtorArgs(c)) > 0 THEN {[name |-> "__init__", params |-> ParamSig(CtorArgs(c))]} ELSE {})
+OptionalInit(c) == ~HasInit(c) /\ Len(CtorArgs(c)) = 0
 ClassSig(c) == [kind |-> "class", name |-> c.n, bases |-> [j \in 1..Len(c.parents) |-> c.parents[j].c], methods |-> Methods(c), optional_init |-> OptionalInit(c)]
 
 Defs(p) == SelectSeq(p.stmts, LAMBDA s : s.k \in {"fun", "class"})
